@@ -1,6 +1,7 @@
 package litefs
 
 import (
+	"bytes"
 	"context"
 	"encoding/binary"
 	"fmt"
@@ -96,6 +97,17 @@ func WriteStreamFrame(w io.Writer, f StreamFrame) error {
 	return err
 }
 
+// readLengthPrefixedBytes reads n bytes from r. The length comes from the wire
+// so the buffer grows with the bytes actually received instead of being
+// allocated up front. Returns io.EOF if fewer than n bytes are available.
+func readLengthPrefixedBytes(r io.Reader, n uint32) ([]byte, error) {
+	var buf bytes.Buffer
+	if _, err := io.CopyN(&buf, r, int64(n)); err != nil {
+		return nil, err
+	}
+	return buf.Bytes(), nil
+}
+
 type LTXStreamFrame struct {
 	Size int64  // payload size
 	Name string // database name
@@ -120,8 +132,8 @@ func (f *LTXStreamFrame) ReadFrom(r io.Reader) (int64, error) {
 		return 0, err
 	}
 
-	name := make([]byte, nameN)
-	if _, err := io.ReadFull(r, name); err == io.EOF {
+	name, err := readLengthPrefixedBytes(r, nameN)
+	if err == io.EOF {
 		return 0, io.ErrUnexpectedEOF
 	} else if err != nil {
 		return 0, err
@@ -173,8 +185,8 @@ func (f *DropDBStreamFrame) ReadFrom(r io.Reader) (int64, error) {
 		return 0, err
 	}
 
-	name := make([]byte, nameN)
-	if _, err := io.ReadFull(r, name); err == io.EOF {
+	name, err := readLengthPrefixedBytes(r, nameN)
+	if err == io.EOF {
 		return 0, io.ErrUnexpectedEOF
 	} else if err != nil {
 		return 0, err
@@ -208,8 +220,8 @@ func (f *HandoffStreamFrame) ReadFrom(r io.Reader) (int64, error) {
 		return 0, err
 	}
 
-	leaseID := make([]byte, n)
-	if _, err := io.ReadFull(r, leaseID); err == io.EOF {
+	leaseID, err := readLengthPrefixedBytes(r, n)
+	if err == io.EOF {
 		return 0, io.ErrUnexpectedEOF
 	} else if err != nil {
 		return 0, err
@@ -253,8 +265,8 @@ func (f *HWMStreamFrame) ReadFrom(r io.Reader) (int64, error) {
 		return 0, err
 	}
 
-	name := make([]byte, nameN)
-	if _, err := io.ReadFull(r, name); err == io.EOF {
+	name, err := readLengthPrefixedBytes(r, nameN)
+	if err == io.EOF {
 		return 0, io.ErrUnexpectedEOF
 	} else if err != nil {
 		return 0, err
